@@ -78,6 +78,8 @@ type Path struct {
 	ranges    map[string][2]int64
 	finite    map[int]bool // term ids of BV64 vars known to be finite floats
 	merge     *mergeCtx
+	cli       *cliState
+	violTerm  *Term // the negated assertion that was found satisfiable
 }
 
 // mergeCtx: a pure callee is run once per outcome of its single symbolic branch and
@@ -494,6 +496,7 @@ func (p *Path) Assert(c *Term, msg string) {
 		p.violation("assert", msg)
 	}
 	neg := p.tt().Not(c)
+	p.violTerm = neg
 	if v, ok := p.evalBool(neg); ok && v {
 		p.log = append(p.log, Event{Kind: 's', Val: 0})
 		p.pos = len(p.log)
@@ -775,6 +778,119 @@ func (p *Path) hashWordEq(x, y *Term) (*Term, bool) {
 		return p.tt().F, true
 	}
 	return nil, false
+}
+
+// ---------- realisation of a counterexample with the real FNV-1a ----------
+
+// realHashes replaces the model values of the idealised hash codes by the real FNV-1a
+// codes of their preimages (computed in creation order) and reports whether the path
+// condition and the violated assertion still hold.
+func (p *Path) realHashes(m Model) (Model, bool) {
+	m2 := Model{}
+	for k, v := range m {
+		m2[k] = v
+	}
+	for _, a := range p.apps {
+		if a.h.IsConst() {
+			continue
+		}
+		bs := make([]byte, len(a.pre))
+		for i, t := range a.pre {
+			v, ok := t.Eval(m2)
+			if !ok {
+				return nil, false
+			}
+			bs[i] = byte(v)
+		}
+		m2[a.h.name] = fnv64a(bs)
+	}
+	for _, c := range p.pc {
+		if v, ok := c.Eval(m2); !ok || v != 1 {
+			return m2, false
+		}
+	}
+	if p.violTerm != nil {
+		if v, ok := p.violTerm.Eval(m2); !ok || v != 1 {
+			return m2, false
+		}
+	}
+	return m2, true
+}
+
+// realise looks for a model of the violation in which every hash code is the real
+// FNV-1a code: hash applications are fixed one by one (leaves of the preimage pinned,
+// code set to the real value) and the solver re-solves the rest.
+func (p *Path) realise() bool {
+	if len(p.apps) == 0 {
+		return true
+	}
+	p.ensureModel()
+	if m2, ok := p.realHashes(p.model); ok {
+		p.model = m2
+		return true
+	}
+	w := p.w
+	tt := p.tt()
+	w.sync(p.pc)
+	w.solver.Push()
+	defer w.solver.Pop(1)
+	if p.violTerm != nil {
+		w.solver.Assert(p.violTerm)
+	}
+	m := p.model
+	pinned := map[string]bool{}
+	for _, a := range p.apps {
+		if a.h.IsConst() {
+			continue
+		}
+		vs := map[*Term]bool{}
+		for _, t := range a.pre {
+			t.Vars(vs)
+		}
+		bs := make([]byte, len(a.pre))
+		for v := range vs {
+			if !pinned[v.name] {
+				pinned[v.name] = true
+				val, ok := v.Eval(m)
+				if !ok {
+					return false
+				}
+				if v.w == SortBool {
+					if val == 1 {
+						w.solver.Assert(v)
+					} else {
+						w.solver.Assert(tt.Not(v))
+					}
+				} else {
+					w.solver.Assert(tt.Eq(v, tt.BV(v.w, val)))
+				}
+			}
+		}
+		for i, t := range a.pre {
+			v, ok := t.Eval(m)
+			if !ok {
+				return false
+			}
+			bs[i] = byte(v)
+		}
+		if !pinned[a.h.name] {
+			pinned[a.h.name] = true
+			w.solver.Assert(tt.Eq(a.h, tt.BV(64, fnv64a(bs))))
+		}
+		if w.solver.Check() != "sat" {
+			return false
+		}
+		nm, err := w.solver.GetModel(p.vars)
+		if err != nil {
+			return false
+		}
+		m = nm
+	}
+	if m2, ok := p.realHashes(m); ok {
+		p.model = m2
+		return true
+	}
+	return false
 }
 
 // ---------- DFS driver ----------
